@@ -447,12 +447,12 @@ fn case_json(c: &Case, choices: &[u32], seed: u64, mode: &str) -> Value {
 
 pub fn run(args: &Args) -> i32 {
     let thorough = args.tier == Tier::Thorough;
-    let bound = 2;
+    let bound = if thorough { 4 } else { 3 };
     let mut rep = Report::new("C19", args.tier, args.seed, "model_checking");
     rep.exhaustive = true;
-    rep.rule = format!("CONNECT request on stream id in {{0, 4, 8, 252, 256, 65536, 2^30}} (1-, 2-, 4- and 8-byte varints), accepted first or after 1-2 ordinary requests; then one WebTransport stream: client-opened uni (0x54 || session id || payload) or bidi (0x41 || session id || payload) with payload of 0, 1 or 40 position-coded bytes, session id in its shortest and in a padded varint form, stream left open or finished, read through poll_data or AsyncRead, delivered under EVERY execution with <= {bound} deviations (every single and double chunk cut at any offset of header and payload, delayed delivery, scheduling) plus one byte per read; server-opened uni / bidi streams written under the default and the one-byte-at-a-time write acceptance; uni streams with the extension disabled. Oracle: session_id() = CONNECT stream id = id on incoming streams = varint after 0x54/0x41 on opened streams; payload delivered complete, in order, also when it shares a chunk with the header and the stream stays open. states = distinct (transport, bytes received) fingerprints; non-trivial = executions with a deviation.");
+    rep.rule = format!("CONNECT request on stream id in {{0, 4, 8, 252, 256, 65536, 2^30}} (1-, 2-, 4- and 8-byte varints), accepted first or after 1-2 ordinary requests; then one WebTransport stream: client-opened uni (0x54 || session id || payload) or bidi (0x41 || session id || payload) with payload of 0, 1 or 40 position-coded bytes, session id in its shortest and in a padded varint form, stream left open or finished, read through poll_data or AsyncRead, delivered under EVERY execution with <= {bound} deviations (chunk cuts at any offset of header and payload, delayed delivery, scheduling) plus one byte per read; server-opened uni / bidi streams written under the default and the one-byte-at-a-time write acceptance; uni streams with the extension disabled. Oracle: session_id() = CONNECT stream id = id on incoming streams = varint after 0x54/0x41 on opened streams; payload delivered complete, in order, also when it shares a chunk with the header and the stream stays open. states = distinct (transport, bytes received) fingerprints; non-trivial = executions with a deviation.");
     rep.assumptions = vec!["stream ids are chosen freely by the scripted client (gaps are legal in simnet)".into()];
-    rep.bound_note = format!("deviation bound {bound}: all single and double cuts");
+    rep.bound_note = format!("deviation bound {bound}: all combinations of up to {bound} cuts / delays / scheduling deviations");
     let ids: Vec<u64> = vec![0, 4, 8, 252, 256, 65536, 1 << 30];
     let mut cases: Vec<Case> = Vec::new();
     for &connect_id in &ids {
@@ -503,7 +503,7 @@ pub fn run(args: &Args) -> i32 {
             }
         }
         if incoming && case.enabled {
-            let caps = Caps { deadline: Some(deadline), max_executions: if thorough { 400_000 } else { 30_000 }, ..Caps::default() };
+            let caps = Caps { deadline: Some(deadline), max_executions: if thorough { 4_000_000 } else { 300_000 }, ..Caps::default() };
             let mut viol = ViolSet::new();
             let mut states: Vec<u64> = Vec::new();
             let mut nontrivial = 0u64;
